@@ -135,6 +135,7 @@ class Rewriter:
         t = self.r4_iter_adapters(t, cfg)
         t = self.r5_for_enumerate(t)
         t = self.r17_zip(t)
+        t = self.r23_chunks(t)
         t = self.r15_for_underscore(t)
         t = self.r14_closure_underscore(t)
         t = self.r16_cmp_max(t)
@@ -404,6 +405,29 @@ class Rewriter:
                     % (x, y, S_IN + "/*@loophead*/" + S_OUT, a, x, b, y))
             tail = "k__ += 1; }"
             self.note("R17", t, m.start())
+            t = t[:m.start()] + head + body + tail + t[cb + 1:]
+
+    # R23 for C in X.chunks(N) { B } -> indexed while over [ci__, ce__)
+    def r23_chunks(self, t):
+        while True:
+            mask = _code_mask(t)
+            m = None
+            for mm in re.finditer(r"\bfor\s+([A-Za-z_][A-Za-z_0-9]*)\s+in\s+([A-Za-z_][A-Za-z_0-9\.]*)\s*\.\s*chunks\s*\(\s*([0-9A-Za-z_]+)\s*\)\s*\{", t):
+                if mask[mm.start()]:
+                    m = mm
+                    break
+            if not m:
+                return t
+            ob = m.end() - 1
+            cb = find_close(t, ob, mask)
+            body = t[ob + 1:cb]
+            if re.search(r"\b(continue|break)\b", body):
+                raise ExtractError("R23: loop body contains continue/break in %s" % self.key)
+            c, x, n = m.groups()
+            head = ("let mut ci__: usize = 0; while ci__ < %s.len() {%s let ce__: usize = if %s.len() - ci__ < %s { %s.len() } else { ci__ + %s }; let %s = &%s[ci__..ce__];"
+                    % (x, S_IN + "/*@loophead*/" + S_OUT, x, n, x, n, c, x))
+            tail = "ci__ = ce__; }"
+            self.note("R23", t, m.start())
             t = t[:m.start()] + head + body + tail + t[cb + 1:]
 
     # R15 for _ in A..B {  ->  for i__ in iter__: A..B {
